@@ -274,6 +274,33 @@ func (C09) Run(s any, c *core.Ctx) core.Outcome {
 		out.Violation = v
 		return out
 	}
+	// the comparator the inputs were sorted with and the output is judged by is
+	// the library's: it must mean what the sorting columns declare (direction on
+	// values, nulls last unless NullsFirst), on every pair of neighbours seen
+	ref := refCompare(sc.Sort)
+	agree := func(rows []parquet.Row, what string) *core.Violation {
+		for i := 1; i < len(rows); i++ {
+			sa, qa, oka := rowIdent(rows[i-1])
+			sb, qb, okb := rowIdent(rows[i])
+			if !oka || !okb || sa >= len(typed) || sb >= len(typed) || qa >= len(typed[sa]) || qb >= len(typed[sb]) {
+				continue
+			}
+			if lc, rc := cmp(rows[i-1], rows[i]), ref(typed[sa][qa], typed[sb][qb]); sgn(lc) != sgn(rc) {
+				return core.Violate("C09/comparator-disagrees-with-declared-order", "%s: Schema.Comparator(%v) says %d, the format's meaning of the sorting columns says %d for %s | %s", what, sc.Sort, lc, rc, fmtKeyed(rows[i-1]), fmtKeyed(rows[i]))
+			}
+		}
+		return nil
+	}
+	for i := range inputs {
+		if v := agree(inputs[i], fmt.Sprintf("input %d", i)); v != nil {
+			out.Violation = v
+			return out
+		}
+	}
+	if v := agree(got, "output"); v != nil {
+		out.Violation = v
+		return out
+	}
 	out.Violation = c09Check(sc, cmp, inputs, got)
 	return out
 }
